@@ -155,6 +155,8 @@ def encoder_side(ctx, rnd):
     r = ctx.tlc('GenText', TEXT_CFG % (6 if ctx.quick else 8), name='GenText_comp')
     texts = [bytes(x['s']) for x in r.jsons]
     texts += structured_texts(rnd, 150 if ctx.quick else 1500)
+    allchars = bytes([10, 32]) + b'0123456789abcdefghijklmnopqrstuvwxyz!#%(){}[]<>+=/*:;.,~_'
+    texts += [allchars, allchars * 2 + b'x', b'-- ' + bytes(range(1, 256)) + b'\n', b'a != b #c ~= d % e\n' * 3, b'x' * 255, b'y=1\n' * 64, b'z' * 256 + b'\n', b'w' * 511]
     ctx.evaluations += len(texts)
     dom = [t for t in texts if in_domain(t)]
     ctx.out_of_domain += len(texts) - len(dom)
